@@ -54,7 +54,7 @@ MCZ == %(zset)s
 MCUA == %(ua)s
 MCTh == {-1, 1, 2}
 Export == AtIterEnd => PrintT(ToJson([cf |-> ec.id, iter |-> iter, draws |-> draws, evals |-> evals, pos |-> pos, wp |-> wp,
-                                      rows |-> rows, rowp |-> rowp, props |-> props, nretry |-> nretry, nstay |-> nstay]))
+                                      rows |-> rows, rowp |-> rowp, props |-> props, fails |-> fails, nretry |-> nretry, nstay |-> nstay]))
 ====
 """
 CFG = """SPECIFICATION ESpec
@@ -67,6 +67,7 @@ INVARIANT WalkerProbsBelong
 INVARIANT RowsBelong
 INVARIANT EInside
 INVARIANT Involution
+INVARIANT Counters
 INVARIANT Export
 CHECK_DEADLOCK FALSE
 """
@@ -116,6 +117,8 @@ def replay(c, b):
         obs.update({"pos": lat(ch.walker_positions), "wp": en(ch.walker_probs), "rows": lat(ch.get_sample()),
                     "rowp": en(ch.get_probabilities()), "chain_length": int(ch.chain_length),
                     "props": [int(ch.total_proposals[w][it]) for it in range(b["iter"]) for w in range(c["w"])],
+                    "props_shape": [len(v) for v in ch.total_proposals], "fails": [int(v) for v in ch.failed_updates],
+                    "n_iterations": int(ch.n_iterations),
                     "start_unchanged": bool(np.array_equal(start, start_copy))})
         try:
             mode = to_lattice(ch.mode(), unit=1.0 / D)
@@ -126,7 +129,7 @@ def replay(c, b):
     return obs
 
 
-def judge(ck, c, b, obs, index):
+def judge(ck, c, b, obs, index, counters=False):
     site = "EnsembleSampler.advance"
     ident = {"cf": {k: c[k] for k in ("n", "w", "mode", "start")}, "draws[jraw,uz,ui]": b["draws"], "iterations": b["iter"]}
     if obs["error"]:
@@ -159,7 +162,11 @@ def judge(ck, c, b, obs, index):
     for key, clause in checks:
         if obs[key] != target[key]:
             if key == "props":
-                continue          # diagnostic counters: not part of any property
+                if counters and b["nstay"] == 0:
+                    ck.violation("attempt counters: total_proposals[w][k] = attempts walker w made in iteration k (max_attempts when it gave up)",
+                                 {**ident, "spec": target["props"], "code": obs["props"]}, site="EnsembleSampler.total_proposals")
+                    return "violation"
+                continue          # diagnostic counters: not part of any listed property (judged by ./check bookkeeping)
             ck.violation(clause, {**ident, "spec": {k: target[k] for k in ("evals", "pos", "wp", "rows", "rowp")},
                                   "code": {k: obs[k] for k in ("evals", "pos", "wp", "rows", "rowp")}}, site=site)
             return "violation"
@@ -170,13 +177,19 @@ def judge(ck, c, b, obs, index):
     if not obs["mode_ok"]:
         ck.violation("ModeIsArgmax (ensemble)", ident, site="EnsembleSampler.mode")
         return "violation"
+    if counters and b["nstay"] == 0:
+        if obs["fails"] != target["fails"] or obs["n_iterations"] != target["iter"] or obs["props_shape"] != [target["iter"]] * c["w"]:
+            ck.violation("failed_updates[k] = walkers that gave up in iteration k; n_iterations = iterations made; one attempt counter per walker and iteration",
+                         {**ident, "spec_failed": target["fails"], "code_failed": obs["fails"], "n_iterations": obs["n_iterations"],
+                          "counters_per_walker": obs["props_shape"]}, site="EnsembleSampler.failed_updates")
+            return "violation"
     if not obs["start_unchanged"]:
         ck.violation("caller's starting_positions array is left unchanged", ident, site="EnsembleSampler.__init__:ownership")
         return "violation"
     return "ok"
 
 
-def run_part(ck, tier):
+def run_part(ck, tier, counters=False):
     cfgs = configs()
     runs = [("exhaustive", dict(zset=[[1, 2], [3, 7]], ua=[0, 63], maxiter=1)),
             ("simulate", dict(zset=[[0, 1], [1, 2], [3, 4], [1, 7], [3, 7]], ua=[0, 1, 2, 3, 4, 31, 32, 63], maxiter=2,
@@ -206,7 +219,7 @@ def run_part(ck, tier):
             seen.add(key)
             c = next(x for x in cfgs if x["id"] == b["cf"])
             obs = replay(c, b)
-            v = judge(ck, c, b, obs, index)
+            v = judge(ck, c, b, obs, index, counters=counters)
             verdicts[v] += 1
             ck.case(("ens", label) + key)
             if len(ck.samples) < 6 and b["nretry"] + b["nstay"] > 0 and label == "simulate":
